@@ -8,18 +8,20 @@ map reaches an output.  Every such container of src/ is listed in
 is a function of the enumeration `l` of a finite map, and the theorem is
 `l ~ l' → out l = out l'` (`~` = `List.Perm`, keys pairwise distinct).
 
-Six consumers of the pinned tree DO leak the order.  For each, the full
+Six consumers of the pinned tree (54ea96f) leaked the order.  For each, the full
 statement is kept as a `def … : Prop`, its negation is proved on a concrete
 witness, and what remains order-free is proved as `…_partial`:
-  collapse_posts::totals_map  (filters.h 431)      reg --collapse --depth N rows in address order
-  put_balance                 (balance.cc 375-379) xml <amount> elements in hash order
-  value_t::is_less_than       (value.cc 965-975)   balance < amount: first deciding component / throw
-  posts_commodities_iterator  (iterators.cc 141)   prices / pricedb groups in address order
-  top_amount                  (report.cc 517-521)  first entry of the hash map
-  balance_t::strip_annotations (balance.cc 263-271) merged lots keep the FIRST lot's keep_precision flag
-(the first, second, fourth and fifth are read from the source into `Gen` flags, so
-the theorems stay valid - and turn into the order-free ones - once the code is
-repaired).
+  collapse_posts::totals_map  (filters.h 431)      reg --collapse --depth N rows in address order     REPAIRED c8b647e
+  put_balance                 (balance.cc 375-379) xml <amount> elements in hash order                 REPAIRED 36e5f68
+  posts_commodities_iterator  (iterators.cc 141)   prices / pricedb groups in address order            REPAIRED fc0aedd
+  top_amount                  (report.cc 517-521)  first entry of the hash map                         REPAIRED c1ef985
+  value_t::is_less_than       (value.cc 965-975)   balance < amount: first deciding component / throw  known finding
+  balance_t::strip_annotations (balance.cc 263-271) merged lots keep the FIRST lot's keep_precision    known finding
+The four repaired ones are read from the source into `Gen` flags: the leak
+theorems are stated under the OLD value of the flag, the `…_fixed` theorems are
+obligations that the working tree has the repaired form, and
+`xml_balance_order_free`, `top_amount_order_free`, `collapse_order_free`,
+`prices_order_free` are the unconditional order-freedom results that follow.
 
 Uninitialised reads and wall-clock dependence cannot be exhibited by a model;
 they are only EXERCISED by the runtime part of tools/props/c19.py.
@@ -335,6 +337,34 @@ theorem C19.top_amount_order_free_of_sorted (h : Gen.topAmountSorted = true) : C
   intro b b' hp hd
   simp only [topAmount, h, if_true]
   rw [C19.sortedAmounts_perm b b' hp hd]
+
+/-! ### the four repaired consumers: obligations on the working tree
+
+Each flag is read from the source on every run; a regression of one of the four
+repairs (put_balance 36e5f68, top_amount c1ef985, collapse totals_map c8b647e,
+posts_commodities_iterator fc0aedd) turns the flag back and breaks the proof.
+The `…_order_leaks` theorems above stay as theorems about the old form. -/
+
+theorem C19.put_balance_fixed : Gen.putBalanceSorted = true := by decide
+theorem C19.top_amount_fixed : Gen.topAmountSorted = true := by decide
+theorem C19.collapse_totals_fixed : Gen.collapseTotalsOrder ≠ "address" := by decide
+theorem C19.prices_set_fixed : Gen.pricesSetOrder ≠ "address" := by decide
+
+/-- `ledger xml`: the `<amount>` elements of a balance do not depend on the hash order. -/
+theorem C19.xml_balance_order_free : C19.XmlBalanceOrderFree :=
+  C19.xml_balance_order_free_of_sorted C19.put_balance_fixed
+
+/-- `top_amount` does not depend on the hash order. -/
+theorem C19.top_amount_order_free : C19.TopAmountOrderFree :=
+  C19.top_amount_order_free_of_sorted C19.top_amount_fixed
+
+/-- `reg --collapse --depth N`: the rows do not depend on the accounts' addresses. -/
+theorem C19.collapse_order_free : C19.CollapseOrderFree :=
+  C19.collapse_order_free_of_fixed C19.collapse_totals_fixed
+
+/-- `prices` / `pricedb`: the groups do not depend on the commodities' addresses. -/
+theorem C19.prices_order_free : C19.PricesOrderFree :=
+  C19.prices_order_free_of_fixed C19.prices_set_fixed
 
 /-! ### non-vacuity -/
 
